@@ -7,7 +7,7 @@
    The evaluator is PESSIMISTIC: every Ok result is what Python computes, but operand combinations that the
    encoders never use evaluate to Err TypeError even where Python would accept them (e.g. 1.0 == 1, True - 1).
    This is the safe direction for "does not raise" theorems. *)
-From Coq Require Import String Ascii PrimFloat Uint63.
+From Coq Require Import String Ascii PrimFloat Uint63 FloatOps SpecFloat.
 From AQ Require Import lib.Base model.LogEnc.
 Open Scope string_scope.
 Open Scope Z_scope.
@@ -173,7 +173,7 @@ Definition sub (a b : ty) : bool :=
   end.
 
 (* ---- expressions ----------------------------------------------------------------------------------- *)
-Inductive binop := BSub | BAdd | BMul.
+Inductive pbinop := BSub | BAdd | BMul.
 Inductive dmode := DAsciiStrict | DUtf8Strict | DLenient.
 
 Inductive pe :=
@@ -183,7 +183,7 @@ Inductive pe :=
 | EAttr (e : pe) (a : string)            (* e.a *)
 | EIdx (e : pe) (i : Z)                  (* e[i], constant index *)
 | ETable (tb : string) (e : pe)          (* MODULE_DICT[e] *)
-| EBin (op : binop) (a b : pe)
+| EBin (op : pbinop) (a b : pe)
 | EEq (a b : pe)
 | EIsNone (e : pe) | EIsNotNone (e : pe)
 | EIf (c a b : pe)                       (* a if c else b *)
@@ -229,7 +229,7 @@ Definition small (z : Z) : bool := (Z.abs z <? 4611686018427387904).      (* 2^6
 Definition f_of_small (z : Z) : float :=
   if z <? 0 then PrimFloat.opp (PrimFloat.of_uint63 (Uint63.of_Z (- z))) else PrimFloat.of_uint63 (Uint63.of_Z z).
 
-Definition binop_val (op : binop) (a b : pv) : Res pv :=
+Definition pbinop_val (op : pbinop) (a b : pv) : Res pv :=
   match op, a, b with
   | BSub, VInt x, VInt y => Ok (VInt (x - y))
   | BAdd, VInt x, VInt y => Ok (VInt (x + y))
@@ -271,7 +271,7 @@ Fixpoint mapres {A B} (f : A -> Res B) (l : list A) : Res (list B) :=
   | h :: t => y <- f h ;; ys <- mapres f t ;; Ok (y :: ys)
   end.
 
-Fixpoint eval (T : tabs) (rho : env) (e : pe) : Res pv :=
+Fixpoint peval (T : tabs) (rho : env) (e : pe) : Res pv :=
   match e with
   | ENone => Ok VNone
   | EInt z => Ok (VInt z)
@@ -280,13 +280,13 @@ Fixpoint eval (T : tabs) (rho : env) (e : pe) : Res pv :=
   | EEnum en m => Ok (VEnum en m)
   | EVar x => match lookup x rho with Some v => Ok v | None => Err NameError end
   | EAttr e a =>
-      v <- eval T rho e ;;
+      v <- peval T rho e ;;
       match v with
       | VObj _ attrs => match lookup a attrs with Some x => Ok x | None => Err AttributeError end
       | _ => Err AttributeError
       end
   | EIdx e i =>
-      v <- eval T rho e ;;
+      v <- peval T rho e ;;
       match v with
       | VTuple l | VList l =>
           if i <? 0 then Err IndexError
@@ -294,35 +294,35 @@ Fixpoint eval (T : tabs) (rho : env) (e : pe) : Res pv :=
       | _ => Err TypeError
       end
   | ETable tb e =>
-      v <- eval T rho e ;;
+      v <- peval T rho e ;;
       match lookup tb (t_tables T), v with
       | Some rows, VEnum en m => table_find en m rows
       | Some _, _ => Err KeyError
       | None, _ => Err NameError
       end
-  | EBin op a b => x <- eval T rho a ;; y <- eval T rho b ;; binop_val op x y
-  | EEq a b => x <- eval T rho a ;; y <- eval T rho b ;; r <- eq_val x y ;; Ok (VBool r)
-  | EIsNone e => v <- eval T rho e ;; Ok (VBool (match v with VNone => true | _ => false end))
-  | EIsNotNone e => v <- eval T rho e ;; Ok (VBool (match v with VNone => false | _ => true end))
-  | EIf c a b => v <- eval T rho c ;; t <- truthy v ;; if t then eval T rho a else eval T rho b
+  | EBin op a b => x <- peval T rho a ;; y <- peval T rho b ;; pbinop_val op x y
+  | EEq a b => x <- peval T rho a ;; y <- peval T rho b ;; r <- eq_val x y ;; Ok (VBool r)
+  | EIsNone e => v <- peval T rho e ;; Ok (VBool (match v with VNone => true | _ => false end))
+  | EIsNotNone e => v <- peval T rho e ;; Ok (VBool (match v with VNone => false | _ => true end))
+  | EIf c a b => v <- peval T rho c ;; t <- truthy v ;; if t then peval T rho a else peval T rho b
   | EDictNil => Ok (VDict [])
   | EDictCons k v rest =>
-      kv <- eval T rho k ;; vv <- eval T rho v ;; r <- eval T rho rest ;;
+      kv <- peval T rho k ;; vv <- peval T rho v ;; r <- peval T rho rest ;;
       match r with VDict d => Ok (VDict ((kv, vv) :: d)) | _ => Err TypeError end
   | EListNil => Ok (VList [])
   | EListCons a rest =>
-      x <- eval T rho a ;; r <- eval T rho rest ;;
+      x <- peval T rho a ;; r <- peval T rho rest ;;
       match r with VList l => Ok (VList (x :: l)) | _ => Err TypeError end
   | EComp elt x iter =>
-      v <- eval T rho iter ;;
+      v <- peval T rho iter ;;
       match v with
       | VList l =>
-          r <- mapres (fun h => eval T ((x, h) :: rho) elt) l ;;
+          r <- mapres (fun h => peval T ((x, h) :: rho) elt) l ;;
           Ok (VList r)
       | _ => Err TypeError
       end
   | ELen e =>
-      v <- eval T rho e ;;
+      v <- peval T rho e ;;
       match v with
       | VBytes b => Ok (VInt (Zlen b))
       | VStr s => Ok (VInt (Z.of_nat (String.length s)))
@@ -331,7 +331,7 @@ Fixpoint eval (T : tabs) (rho : env) (e : pe) : Res pv :=
       | _ => Err TypeError
       end
   | EIntOf e =>
-      v <- eval T rho e ;;
+      v <- peval T rho e ;;
       match v with
       | VInt z => Ok (VInt z)
       | VBool b => Ok (VInt (b2z b))
@@ -339,18 +339,18 @@ Fixpoint eval (T : tabs) (rho : env) (e : pe) : Res pv :=
       | _ => Err TypeError
       end
   | EHexlify e =>
-      v <- eval T rho e ;;
+      v <- peval T rho e ;;
       match v with VBytes b => Ok (VBytes (hexlify b)) | _ => Err TypeError end
   | EDecode m e =>
-      v <- eval T rho e ;;
+      v <- peval T rho e ;;
       match v with VBytes b => decode_val m b | _ => Err AttributeError end
-  | EIsInstance e tn => v <- eval T rho e ;; Ok (VBool (isinst tn v))
-  | ELet x e body => v <- eval T rho e ;; eval T ((x, v) :: rho) body
+  | EIsInstance e tn => v <- peval T rho e ;; Ok (VBool (isinst tn v))
+  | ELet x e body => v <- peval T rho e ;; peval T ((x, v) :: rho) body
   | EListOf e =>
-      v <- eval T rho e ;;
+      v <- peval T rho e ;;
       match v with VList l => Ok (VList l) | _ => Err TypeError end
   | EItems e =>
-      v <- eval T rho e ;;
+      v <- peval T rho e ;;
       match v with
       | VObj _ attrs => Ok (VList (map (fun av : string * pv => VTuple [VStr (fst av); snd av]) attrs))
       | _ => Err AttributeError
@@ -370,14 +370,14 @@ Fixpoint dict_set (key : string) (v : pv) (d : list (pv * pv)) : list (pv * pv) 
 
 (* ---- statements ------------------------------------------------------------------------------------ *)
 Inductive ps :=
-| SSkip
-| SRet (e : pe)
-| SAssign (x : string) (e : pe)
-| SSetItem (x : string) (k e : pe)                  (* x[k] = e, x a local dict *)
-| SSeq (a b : ps)
-| SIf (c : pe) (a b : ps)
-| SIfInst (x tn : string) (a b : ps)                (* if isinstance(x, tn): a else: b *)
-| SForPair (kx vx : string) (e : pe) (body : ps).   (* for kx, vx in e: body *)
+| PSkip
+| PRet (e : pe)
+| PAssign (x : string) (e : pe)
+| PSetItem (x : string) (k e : pe)                  (* x[k] = e, x a local dict *)
+| PSeq (a b : ps)
+| PIf (c : pe) (a b : ps)
+| PIfInst (x tn : string) (a b : ps)                (* if isinstance(x, tn): a else: b *)
+| PForPair (kx vx : string) (e : pe) (body : ps).   (* for kx, vx in e: body *)
 
 (* a for loop: run f on each element, threading the environment, until the body returns *)
 Fixpoint loopres (f : env -> pv -> Res (env * option pv)) (rho : env) (l : list pv) : Res (env * option pv) :=
@@ -390,27 +390,27 @@ Fixpoint loopres (f : env -> pv -> Res (env * option pv)) (rho : env) (l : list 
 
 Fixpoint exec (T : tabs) (rho : env) (s : ps) : Res (env * option pv) :=
   match s with
-  | SSkip => Ok (rho, None)
-  | SRet e => v <- eval T rho e ;; Ok (rho, Some v)
-  | SAssign x e => v <- eval T rho e ;; Ok ((x, v) :: rho, None)
-  | SSetItem x k e =>
-      v <- eval T rho e ;; kv <- eval T rho k ;;
+  | PSkip => Ok (rho, None)
+  | PRet e => v <- peval T rho e ;; Ok (rho, Some v)
+  | PAssign x e => v <- peval T rho e ;; Ok ((x, v) :: rho, None)
+  | PSetItem x k e =>
+      v <- peval T rho e ;; kv <- peval T rho k ;;
       match lookup x rho, kv with
       | Some (VDict d), VStr key => Ok ((x, VDict (dict_set key v d)) :: rho, None)
       | Some _, _ => Err TypeError
       | None, _ => Err NameError
       end
-  | SSeq a b =>
+  | PSeq a b =>
       r <- exec T rho a ;;
       match snd r with Some v => Ok r | None => exec T (fst r) b end
-  | SIf c a b => v <- eval T rho c ;; t <- truthy v ;; if t then exec T rho a else exec T rho b
-  | SIfInst x tn a b =>
+  | PIf c a b => v <- peval T rho c ;; t <- truthy v ;; if t then exec T rho a else exec T rho b
+  | PIfInst x tn a b =>
       match lookup x rho with
       | Some v => if isinst tn v then exec T rho a else exec T rho b
       | None => Err NameError
       end
-  | SForPair kx vx e body =>
-      v <- eval T rho e ;;
+  | PForPair kx vx e body =>
+      v <- peval T rho e ;;
       match v with
       | VList l =>
           loopres (fun rho h =>
@@ -545,26 +545,26 @@ Fixpoint tc (T : tabs) (G : tenv) (e : pe) : option ty :=
    when control falls through the environment has type G' (an extension of G)" *)
 Fixpoint tcs (T : tabs) (G : tenv) (s : ps) : option tenv :=
   match s with
-  | SSkip => Some G
-  | SRet e => match tc T G e with Some t => if sub t TJson then Some G else None | None => None end
-  | SAssign x e =>
+  | PSkip => Some G
+  | PRet e => match tc T G e with Some t => if sub t TJson then Some G else None | None => None end
+  | PAssign x e =>
       match tc T G e, lookup x G with
       | Some t, None => Some ((x, t) :: G)
       | Some t, Some t0 => if sub t t0 then Some G else None
       | None, _ => None
       end
-  | SSetItem x k e =>
+  | PSetItem x k e =>
       match lookup x G, tc T G k, tc T G e with
       | Some TJsonDict, Some TStr, Some t => if sub t TJson then Some G else None
       | _, _, _ => None
       end
-  | SSeq a b => match tcs T G a with Some G1 => tcs T G1 b | None => None end
-  | SIf c a b =>
+  | PSeq a b => match tcs T G a with Some G1 => tcs T G1 b | None => None end
+  | PIf c a b =>
       match tc T G c, tcs T G a, tcs T G b with
       | Some TBool, Some _, Some _ => Some G
       | _, _, _ => None
       end
-  | SIfInst x tn a b =>
+  | PIfInst x tn a b =>
       match lookup x G with
       | Some TAny =>
           match narrow tn with
@@ -573,7 +573,7 @@ Fixpoint tcs (T : tabs) (G : tenv) (s : ps) : option tenv :=
           end
       | _ => None
       end
-  | SForPair kx vx e body =>
+  | PForPair kx vx e body =>
       match tc T G e, lookup kx G, lookup vx G with
       | Some TItems, None, None =>
           match tcs T ((vx, TAny) :: (kx, TStr) :: G) body with Some _ => Some G | None => None end
@@ -640,11 +640,49 @@ Fixpoint prims (e : pe) : list string :=
 
 Fixpoint prims_s (s : ps) : list string :=
   match s with
-  | SSkip => []
-  | SRet e | SAssign _ e => prims e
-  | SSetItem _ k e => prims k ++ prims e ++ ["setitem"]
-  | SSeq a b => prims_s a ++ prims_s b
-  | SIf c a b => prims c ++ prims_s a ++ prims_s b
-  | SIfInst _ _ a b => prims_s a ++ prims_s b
-  | SForPair _ _ e b => prims e ++ ["iterate pairs"] ++ prims_s b
+  | PSkip => []
+  | PRet e | PAssign _ e => prims e
+  | PSetItem _ k e => prims k ++ prims e ++ ["setitem"]
+  | PSeq a b => prims_s a ++ prims_s b
+  | PIf c a b => prims c ++ prims_s a ++ prims_s b
+  | PIfInst _ _ a b => prims_s a ++ prims_s b
+  | PForPair _ _ e b => prims e ++ ["iterate pairs"] ++ prims_s b
   end.
+
+(* ---- printer used by the correspondence harness (vm_compute): canonical tokens of a result ------------------- *)
+Definition f_lit (neg : bool) (m e : Z) : float :=
+  let x := Z.ldexp (PrimFloat.of_uint63 (Uint63.of_Z m)) e in if neg then PrimFloat.opp x else x.
+
+Definition ser_float (f : float) : list Z :=
+  match Prim2SF f with
+  | S754_zero s => [3; b2z s; 0; 0]
+  | S754_infinity s => [4; b2z s]
+  | S754_nan => [5]
+  | S754_finite s m e => [3; b2z s; Zpos m; e]
+  end.
+
+Definition ser_str (s : string) : list Z :=
+  Z.of_nat (String.length s) :: map (fun c => Z.of_nat (nat_of_ascii c)) (list_ascii_of_string s).
+
+Fixpoint ser (v : pv) : list Z :=
+  match v with
+  | VNone => [0]
+  | VBool b => [1; b2z b]
+  | VInt z => [2; z]
+  | VFloat f => ser_float f
+  | VStr s => 6 :: ser_str s
+  | VBytes b => 7 :: Zlen b :: b
+  | VList l | VTuple l =>
+      8 :: Zlen l :: (fix go (l : list pv) : list Z := match l with [] => [] | x :: r => (ser x ++ go r)%list end) l
+  | VDict d =>
+      9 :: Zlen d :: (fix go (d : list (pv * pv)) : list Z :=
+                        match d with [] => [] | (k, x) :: r => (ser k ++ ser x ++ go r)%list end) d
+  | VEnum _ _ => [10]
+  | VObj _ _ => [11]
+  end.
+
+Definition ser_res (r : Res pv) : list Z :=
+  match r with Ok v => 0 :: ser v | Err k => [1; k] end.
+
+Definition call_named (T : tabs) (ms : list meth) (n : string) (args : list pv) : list Z :=
+  match find_meth n ms with Some m => ser_res (call T m args) | None => [2] end.
